@@ -10,7 +10,7 @@ admits exactly the versions equal to its point. `relHas` is this rule on well-fo
 a special case in `matchVersion`: Default, NPM, Cargo, Go, Composer).
 
 `Touches s v x`: the bound `x` can let `v` in — it is a prerelease sharing its numbers with `v`, or
-it equals `v` in the order. A span none of whose bounds touches `v` does not admit `v`
+it equals `v` in the order. A span none of whose bounds touches `v` does not accept `v`
 (`relHas_false_of_noTouch`).
 -/
 namespace DepsDev.Proofs.C09b
@@ -152,7 +152,7 @@ theorem admits_false {v x : Version} {o : Option Version} (ho : o = some x) (h :
   simp only [Bool.and_eq_true, equalValues, beq_iff_eq] at ht
   exact h (Or.inl ht)
 
-/-- A span none of whose bounds touches the prerelease candidate `v` does not admit it in release mode. -/
+/-- A span none of whose bounds touches the prerelease candidate `v` does not accept it in release mode. -/
 theorem relHas_false_of_noTouch {sp : Span} {v : Version} (hsp : SpanOK s sp) (hp : v.isPrerelease = true)
     (h : NoTouch s v sp) : relHas s sp v = false := by
   by_cases hne : sp.rank = .empty
@@ -175,12 +175,12 @@ theorem relHas_false_of_noTouch {sp : Span} {v : Version} (hsp : SpanOK s sp) (h
     simp only [f1, f2, Bool.false_eq_true, ↓reduceIte] at hhas
     exact h.1 a h1 (Or.inr hhas)
 
-/-- A release bound (no prerelease tag, hence not flagged as a prerelease) does not touch a
-candidate carrying a prerelease tag. -/
+/-- An untagged bound does not touch a candidate carrying a prerelease tag — unless it is flagged as a
+prerelease all the same (`clearPre` keeps the flag) and has the number list of the candidate. -/
 theorem noTouch_of_release {v x : Version} (hvt : v.pre ≠ []) (hx : x.pre = [])
-    (hflag : x.isPrerelease = true → x.pre ≠ []) : ¬ Touches s v x := by
-  rintro (⟨h, -⟩ | ⟨h1, h2⟩)
-  · exact hflag h hx
+    (hflag : x.isPrerelease = true → v.num ≠ x.num) : ¬ Touches s v x := by
+  rintro (⟨h, heq⟩ | ⟨h1, h2⟩)
+  · exact hflag h heq
   · have := (ord_eq_iff (s := s) x v).mpr ⟨h1, h2⟩
     unfold genericOrd compareLex preOrd at this
     simp only [hx] at this
